@@ -3,7 +3,7 @@
  "name": "p34_pass4_inode_links",
  "props": ["C02", "C01", "C05"],
  "level": "U/iter",
- "tier": "wip",
+ "tier": "thorough",
  "harness": "h_pass4",
  "loop_contracts": true,
  "includes": ["e2fsck", "lib/support"],
@@ -20,6 +20,7 @@
 	     "a directory whose i_links_count is 1 although it is indexed and has between 2 and 65000 references is legal by the kernel's accounting (specs/fsck34_links_spec.h); a repairing e2fsck nevertheless offers PR_4_DIR_OVERFLOW_REF_COUNT and rewrites the count to the exact value: the C05 clause 'link count unchanged' is CHECKed with this documented normalisation as the only exception (reported as an observation)",
 	     "inodes hidden from the directory tree (reserved inodes, project-quota inode, orphan file) are not looked at by pass 4: their health is pass 1's business (pass1.c reports PR_1_*_NOT_CLEAR when they are in use without their feature)",
 	     "needs the hook of hooks-pending/p34.diff (named anchor in e2fsck/pass4.c)"],
+ "timeout": 600,
  "backend": "cadical",
  "native": false
 }
